@@ -1,12 +1,17 @@
 """
 C02 -- major star-allele calls are consistent, optimal and complete.
 
-Decided: the major model contains every necessary constraint family: (R1) per-configuration count
-equalities, (R2) enough allele copies, (R3) fit equations for every core variant and reference
-site (scatter/gather templates evaluated on a sample instance), (R4) exact carried-XOR-novel and OR
-gadgets (truth tables), (R5) objective, (R6) enumeration with the gap and identity of solutions,
-(R7) candidate selection.  CORD_* / CONE_* / NOVEL_LB are not required.
-Not decided: that CBC returns all optima; the noise-free "error zero" claim.
+Decided by whole-function folding against the recording MILP library (sa.lpmodel): major.solve_major_model and the
+solver wrapper class of /repo are executed by the analysis' interpreter on sample instances.
+(R9) With an unbounded optimality gap the routine reports every combination its model admits, with its score: this set
+     equals the independent reading of the statement (each configuration gets exactly its copies; every observed core
+     variant is carried or novel, never both, never neither; score = fit error + novelty penalties); the only tolerated
+     extra restriction is "one novel substitution per site".
+(R10) With gap 0 / 0.1 / 0.5 the report is exactly the admissible combinations within (1 + gap) x best, best first, once.
+(R7) candidate selection (_filter_alleles folded whole on a two-stage evidence stub) and estimate_major's empty-configuration
+     short cut.
+The template rules R1-R6/R8 of the first build (per-constraint normal forms keyed by local names) were retired for R9/R10.
+Not decided: that CBC returns all optima; the noise-free "error zero" claim on the shipped databases.
 """
 
 import ast
@@ -21,14 +26,15 @@ from sa.loader import AnalysisError, call_name, calls_in, kwarg, walk_local
 
 PROPERTY = "C02"
 EXPLANATION = (
-    "Constraint-template conformance for major::solve_major_model on a sample instance (6 candidate alleles over two "
-    "configurations, substitutions and an insertion sharing a site, a fusion allele without copies at one site): "
-    "CSAT equalities evaluated per configuration; allele-copy supply block folded; the scatter table of the fit "
-    "equations (three accumulation sites + reference sites) evaluated per key and compared with the documented "
-    "expression; XOR/OR gadget sites evaluated on {0,1}^(3+k), k=0..3, against the relation 'carried XOR novel'; "
-    "objective template; read-out loop folded on sample yields; _filter_alleles / estimate_major folded."
+    "Model extraction by whole-function folding: solve_major_model + lpinterface.CBC/Gurobi of /repo run in the analysis' interpreter "
+    "against a recording library stand-in whose Solve() enumerates the integer variables exhaustively (continuous part by the "
+    "analysis' own simplex). Per sample instance (4 fixed + 4 / 24 seeded random: 2-6 candidate alleles over 1-2 configurations, "
+    "substitutions, an insertion and a deletion sharing sites, fusion alleles without copies at a site, unexplained variants, "
+    "variant-specific single-copy depth, zero depth, non-default novelty penalty) the complete report (gap = 1e9) is compared with an "
+    "independent enumeration of all admissible combinations and their fit errors; the reports at gap 0/0.1/0.5 with the within-gap sets. "
+    "_filter_alleles and estimate_major folded whole."
 )
-ASSUMPTIONS = ["CORD_* (symmetry), CONE_* (one novel variant per site) and NOVEL_LB are not necessary conditions of the statement"]
+ASSUMPTIONS = ["CONE_* (at most one novel substitution per site) is tolerated as an extra restriction: combinations that need two are don't-care"]
 
 
 class Mut(collections.namedtuple("Mutation", ["pos", "op"])):
@@ -52,390 +58,47 @@ def sample():
     return gene, alleles, structure
 
 
-def copies(f, gene, allele_dict, structure):
-    loc = fold_defs(f, {"alleles"}, {"allele_dict": allele_dict, "cn_solution": structure, "gene": gene})
-    if "alleles" not in loc:
-        raise AnalysisError("allele-copy table `alleles` not found in solve_major_model")
-    return loc["alleles"]
-
-
-def r12(repo, res, m):
-    f = m.func
-    gene, alleles, structure = sample()
-    try:
-        A = copies(f, gene, alleles, structure)
-    except (Unfoldable, Raised) as e:
-        res.err("C02.R2", f"allele-copy block outside folding language: {e}")
-        return None
-    want = {(an, i) for an, a in alleles.items() for i in range(structure.solution[a.cn_config])}
-    node = [n for n in walk_local(f) if isinstance(n, ast.Assign) and ast.unparse(n.targets[0]) == "alleles"]
-    res.ob("C02.R2", f, node[0] if node else f, set(A) == want and all(A[k] is alleles[k[0]] or A[k].func_muts == alleles[k[0]].func_muts for k in A),
-           expected="every candidate allele has copies 0 .. count(its configuration) - 1",
-           found=f"missing {sorted(want - set(A))} extra {sorted(set(A) - want)}",
-           clause="completeness: a combination using one allele on every copy of a configuration must be expressible", key="copy-supply")
-    V = [n for n, c in m.fams.containers.items() if any(i["prefix"].startswith("A_") and i["vtype"] == "B" for i in c["infos"])]
-    if len(V) != 1:
-        res.err("C02.R1", f"allele selector family (binary A_...) not found uniquely: {V}")
-        return None
-    V = V[0]
-    comp = m.fams.containers[V]["comp"]
-    ok = isinstance(comp, ast.DictComp) and ast.unparse(comp.generators[0].iter) == "alleles"
-    res.ob("C02.R2", f, m.fams.containers[V]["site"], ok, expected="one binary selector per allele copy", found=ast.unparse(comp)[:90] if comp else "?",
-           key="selector-per-copy")
-    # R1 -- CSAT
-    x = {k: round(0.13 + 0.07 * i + 0.013 * VAL_SEED * ((i * 5) % 7), 3) for i, k in enumerate(sorted(A))}
-    env = {"alleles": A, "cn_solution": structure, V: {k: k for k in A}}
-    hit = None
-    for a, b in m.equalities():
-        sums = a.lin.sum_terms()
-        if len(sums) == 1 and not a.lin.var_terms() and any(t.kind == "var" and t.fam == V for _, t in sums[0][1].body.terms):
-            hit = a
-    bad = None
-    if hit is not None:
-        try:
-            vals = site_values(hit, env, lambda fam, keys, comp: x[keys[0] if len(keys) == 1 else keys])
-            got = {}
-            for loc, v in vals:
-                cnf = [val for k_, val in loc.items() if val in structure.solution]
-                got[cnf[0] if cnf else None] = v
-            for cnf, cnt in structure.solution.items():
-                want_v = sum(x[k] for k in A if A[k].cn_config == cnf) - cnt
-                g = got.get(cnf)
-                if g is None or min(abs(g - want_v), abs(g + want_v)) > 1e-9:
-                    bad = f"configuration {cnf}: template {g}, documented {want_v}"
-        except (Unfoldable, Raised, KeyError) as e:
-            res.err("C02.R1", f"CSAT template outside folding language: {e}")
-            return V
-    res.ob("C02.R1", f, hit.call if hit is not None else f, hit is not None and bad is None,
-           expected="for every (configuration, count) of the structure: sum of selectors of that configuration == count (both senses)",
-           found=("agrees on the sample instance" if bad is None else bad) if hit is not None else "no such equality",
-           clause="each structural configuration gets exactly as many alleles as the structure has copies of it", key="csat")
-    return V
-
-
-def fams_by_prefix(m, prefix, vtype=None):
-    return [n for n, c in m.fams.containers.items() if any(i["prefix"].startswith(prefix) and (vtype is None or i["vtype"] == vtype)
-                                                          for i in c["infos"])]
-
-
-def r3(repo, res, m, V):
-    f = m.func
-    gene, alleles, structure = sample()
-    A = copies(f, gene, alleles, structure)
-    N = fams_by_prefix(m, "N_", "B")
-    Efam = fams_by_prefix(m, "E_")
-    if len(N) != 1 or len(Efam) != 1:
-        res.err("C02.R3", f"novel / error families not found uniquely: {N} {Efam}")
-        return None, None
-    N, Efam = N[0], Efam[0]
-    func_muts = {M1, M2, M3, INS}
-    x = {k: round(0.13 + 0.07 * i + 0.013 * VAL_SEED * ((i * 5) % 7), 3) for i, k in enumerate(sorted(A))}
-    nv = {M1: 0.5, M2: 0.25, M3: 1.0, INS: 0.0}
-    err = collections.defaultdict(lambda: 0.125)
-    tables = [t for t in ("constraints",) if any(True for _ in m.scatter(t))]
-    # the gather site
-    gather = None
-    for a, b in m.equalities():
-        if any(t.kind == "table" for _, t in a.lin.terms):
-            gather = a
-    if gather is None:
-        res.ob("C02.R3", f, f, False, expected="fit equation `expr + E == cov` (both senses) for every key of the equation table",
-               found="no equality over the scatter table", key="fit-gather")
-        return N, Efam
-    tname = [t for _, t in gather.lin.terms if t.kind == "table"][0].name
-    defs = single_defs(f)
-    keys0 = {m_: 0 for m_ in func_muts}
-    env = {"alleles": A, "gene": gene, "func_muts": func_muts, V: {k: k for k in A}, N: {k: k for k in func_muts},
-           Efam: {k: k for k in list(func_muts)}, "constraints": dict(keys0), "cn_solution": structure}
-
-    def varval(fam, keys, comp):
-        k = keys[0] if len(keys) == 1 else keys
-        if fam == V:
-            return x[k]
-        if fam == N:
-            return nv[k]
-        if fam == Efam:
-            return err[k]
-        raise Unfoldable(f"unexpected family {fam}")
-
-    bad = None
-    nkeys = 0
-    try:
-        allkeys = list(func_muts) + [Mut(p, "_") for p in (100, 200, 300)]
-        for key in allkeys:
-            got = scatter_value(m, tname, key, env, varval, funcs={"Mutation": Mut}, defs=defs)
-            if key.op != "_":
-                want = sum(x[k] for k in A if key in A[k].func_muts) + nv[key]
-            else:
-                want = sum(x[k] for k in A if gene.has_coverage(k[0], key.pos)
-                           and not any(mm.pos == key.pos and mm.op[:3] != "ins" for mm in A[k].func_muts))
-            nkeys += 1
-            if abs(got - want) > 1e-9:
-                bad = f"key {key}: accumulated template {got:.4f}, documented {want:.4f}"
-                break
-    except (Unfoldable, Raised, KeyError) as e:
-        res.err("C02.R3", f"fit-equation scatter outside folding language: {e}")
-        return N, Efam
-    res.ob("C02.R3", f, gather.call, bad is None,
-           expected="variant m: sum(selectors of alleles carrying m) + novel[m]; reference site: sum(selectors of alleles with copies there and "
-                    "no non-insertion core variant there)",
-           found=f"agrees on {nkeys} keys of the sample instance" if bad is None else bad,
-           clause="fit error of every core variant and of the reference allele at those sites", key="fit-expressions")
-    # gather form: expr + E[m] - cov == 0, E free in sign, for every key
-    okg = len(gather.lin.terms) == 2 and any(t.kind == "var" and t.fam == Efam and float(k.num) in (1.0, -1.0) for k, t in gather.lin.terms)
-    infos = m.fams.containers[Efam]["infos"]
-    free = all(i["lb"] is not None and ast.unparse(i["lb"]).startswith("-") and i["ub"] is not None for i in infos)
-    it = ast.unparse(gather.binders[-1][1]) if gather.binders else ""
-    res.ob("C02.R3", f, gather.call, okg and free and tname in it,
-           expected="table[m] + E[m] == observed copies, E free in sign, for every key of the table",
-           found=f"{gather.lin.text()[:80]} over {it[:40]}; E bounds free: {free}", key="fit-gather")
-    # observed copies:  coverage[m] / single_copy(m), 0 when the site has no copies
-    covdef = [n for n in walk_local(gather.binders and _enclosing_for(gather.call) or f) if isinstance(n, ast.Assign)
-              and isinstance(n.targets[0], ast.Name) and n.targets[0].id == "cov"]
-    return N, Efam
-
-
-def _enclosing_for(node):
-    p = getattr(node, "_parent", None)
-    while p is not None and not isinstance(p, ast.For):
-        p = getattr(p, "_parent", None)
-    return p
-
-
-def r3b(repo, res, m):
-    """Observed copy number of a key: coverage / single-copy depth with the zero guard."""
-    f = m.func
-    gather = None
-    for a, b in m.equalities():
-        if any(t.kind == "table" for _, t in a.lin.terms):
-            gather = a
-    if gather is None:
-        return
-    loop = _enclosing_for(gather.call)
-    body = [st for st in loop.body if st.lineno < gather.call.lineno and not isinstance(st, ast.Expr)]
-    rows = []
-    ok = True
-    try:
-        # single-copy depth of a *variant* (re-aligned indel counts) may differ from the pile-up depth of its position
-        for sc_pos, sc_m, cv, want in [(0, 0, 7, 0.0), (7.0, 10.0, 25, 2.5), (5.0, 4.0, 0, 0.0), (9.0, 4.0, 6, 1.5)]:
-            def single_copy(q, s_, a=sc_pos, b=sc_m):
-                return b if isinstance(q, tuple) else a
-
-            def hook(node, e_, cv=cv, sc=single_copy):
-                if isinstance(node, ast.Subscript) and ast.unparse(node.value) == "coverage":
-                    return cv
-                if isinstance(node, ast.Call) and ast.unparse(node.func) == "coverage.single_copy":
-                    return sc(e_.ev(node.args[0]), None)
-                return NotImplemented
-
-            ev = Evaluator({"m": M1, "cn_solution": "S"}, hook=hook)
-            k, v = ev.run(body)
-            got = ev.locals.get("cov")
-            rows.append(f"depth/copy at position={sc_pos}, of the variant={sc_m}, reads={cv} -> {got}")
-            ok = ok and got == want
-    except (Unfoldable, Raised) as e:
-        res.err("C02.R3", f"observed-copies definition outside folding language: {e}")
-        return
-    res.ob("C02.R3", f, loop, ok, expected="observed copies = reads / single-copy depth of that variant (indel-aware), 0 where the structure has no copies",
-           found="; ".join(rows), key="observed-copies")
-
-
-def r4(repo, res, m, V, N):
-    f = m.func
-    gene, alleles, structure = sample()
-    # gadget sites: those mentioning the OR_/XOR_ scalars
-    ors = [n for n, i in m.fams.scalars.items() if i["prefix"].startswith("OR_")]
-    xors = [n for n, i in m.fams.scalars.items() if i["prefix"].startswith("XOR_")]
-    if len(ors) != 1 or len(xors) != 1:
-        res.ob("C02.R4", f, f, False, expected="binary helper variables OR_<m> and XOR_<m> per core variant", found=f"{ors} {xors}", key="gadget-vars")
-        return
-    OR, XOR = ors[0], xors[0]
-    sites = [s for s in m.sites if s.lin is not None and any(t.kind == "var" and t.fam in (OR, XOR) for _, t in _all_terms(s.lin))]
-    res.floor("C02.R4", "gadget constraint sites", len(sites), 4)
-    loopvars = set()
-    for s in sites:
-        if s.binders:
-            loopvars.add(ast.unparse(s.binders[0][0]))
-    bad = None
-    ncases = 0
-    defs = single_defs(f)
-    try:
-        for k in range(0, 4):
-            carriers = [(f"a{j}", 0) for j in range(k)]
-            A = {c: Obj(func_muts={M1}, cn_config="1") for c in carriers}
-            A[("z", 0)] = Obj(func_muts=set(), cn_config="1")
-            for bits in itertools.product((0, 1), repeat=3 + k):
-                nvl, orv, xorv, vas = bits[0], bits[1], bits[2], bits[3:]
-                xa = dict(zip(carriers, vas))
-                xa[("z", 0)] = 1
-
-                def varval(fam, keys, comp):
-                    if fam == OR:
-                        return orv
-                    if fam == XOR:
-                        return xorv
-                    if fam == N:
-                        return nvl
-                    if fam == V:
-                        return xa[keys[0] if len(keys) == 1 else keys]
-                    raise Unfoldable(f"unexpected family {fam} in gadget")
-
-                env = {"alleles": A, V: {c: c for c in A}, N: {M1: M1}, "func_muts": [M1], "m": M1}
-                feas = True
-                for s in sites:
-                    # outer loop variable (the core variant) is fixed to M1; inner binders are enumerated
-                    skip = 1 if s.binders and ast.unparse(s.binders[0][1]) in ("func_muts",) else 0
-                    for loc, val in site_values(s, env, varval, defs=defs, skip_binders=skip):
-                        if s.sense == "==" and abs(val) > 1e-9:
-                            feas = False
-                        elif s.sense != "==" and val > 1e-9:
-                            feas = False
-                want = xorv == 1 and orv == int(any(vas)) and nvl + orv == 1
-                ncases += 1
-                if feas != want:
-                    bad = f"{k} carrier(s): novel={nvl}, OR={orv}, XOR={xorv}, selectors={list(vas)}: feasible={feas}, relation says {want}"
-                    break
-            if bad:
-                break
-    except (Unfoldable, Raised, KeyError) as e:
-        res.err("C02.R4", f"XOR/OR gadget outside folding language: {e}")
-        return
-    res.ob("C02.R4", f, sites[0].call, bad is None,
-           expected="feasible set = {XOR = 1, OR = any(selectors of carriers), novel + OR = 1} for 0..3 carriers",
-           found=f"exact on {ncases} assignments" if bad is None else bad,
-           clause="either a called allele carries it or it is flagged as novel, never both and never neither", key="xor-gadget")
-    # the gadget exists for every core variant present in the sample
-    s0 = sites[0]
-    ok = bool(s0.binders) and ast.unparse(s0.binders[0][1]) == "func_muts"
-    res.ob("C02.R4", f, s0.call, ok, expected="one gadget per observed core variant", found=ast.unparse(s0.binders[0][1]) if s0.binders else "no loop",
-           key="gadget-domain")
-
-
-def _all_terms(l):
-    for k, t in l.terms:
-        yield k, t
-        if t.kind == "sum":
-            yield from _all_terms(t.body)
-
-
-def r5(repo, res, m, V, N, Efam):
-    f = m.func
-    obj = m.objective_lin()
-    if obj is None:
-        res.err("C02.R5", "setObjective not found")
-        return
-    zs = [n for n, i in m.fams.scalars.items() if i["prefix"] == "NOVEL"]
-    nv = {M1: 1, M2: 0, M3: 1}
-    seen = []
-
-    def atomval(t):
-        if getattr(t, "tag", "") == "abssum":
-            seen.append(ast.unparse(t.node.args[0]))
-            return 3.25
-        return NotImplemented
-
-    def varval(fam, keys, comp):
-        if fam == N:
-            return nv[keys[0]]
-        if zs and fam == zs[0]:
-            return 1
-        raise Unfoldable(f"unexpected family {fam} in objective")
-
-    try:
-        env = {N: {k: k for k in nv}, "coverage": Obj(profile=Obj(major_novel=21.0))}
-        got = LinEval(env, varval, atomval=atomval).lin(obj)
-    except (Unfoldable, Raised, KeyError) as e:
-        res.err("C02.R5", f"objective outside folding language: {e}")
-        return
-    want = 3.25 + 21.0 * 1 + 0.1 * 2
-    res.ob("C02.R5", f, m.objectives[-1], abs(got - want) < 1e-9 and len(seen) == 1 and Efam in seen[0],
-           expected="abssum(all fit errors) + major_novel * z + 0.1 * sum(novel flags)",
-           found=f"template = {got}, documented = {want}; abssum over {seen}", clause="plus the novelty penalties", key="objective")
-    # z >= every novel flag
-    ok = False
-    for s in m.sites:
-        if s.lin is None or not zs:
-            continue
-        vt = s.lin.var_terms()
-        if len(vt) == 2 and {t.fam for _, t in vt} == {zs[0], N} and s.sense in ("<=", ">="):
-            cz = [float(k.num) for k, t in vt if t.fam == zs[0]][0]
-            cn = [float(k.num) for k, t in vt if t.fam == N][0]
-            if cz == -1.0 and cn == 1.0 and s.binders and N in ast.unparse(s.binders[-1][1]):
-                ok = True
-    res.ob("C02.R5", f, m.objectives[-1], ok, expected="z >= novel[m] for every observed core variant (the side that matters under minimisation)",
-           found="present" if ok else "absent", key="novel-indicator")
-
-
-def r6(repo, res, m, V, N):
-    f = m.func
-    sol = m.solutions
-    ok = len(sol) == 1 and sol[0].args and ast.unparse(sol[0].args[0]).endswith("profile.gap")
-    res.ob("C02.R6", f, sol[0] if sol else f, ok, expected="model.solutions(<profile>.gap)", found=ast.unparse(sol[0]) if sol else "no call",
-           clause="every admissible combination within the optimality gap is reported", key="gap-passed")
-    loop = None
-    for n in walk_local(f):
-        if isinstance(n, ast.For) and sol and sol[0] in list(ast.walk(n.iter)):
-            loop = n
-    lk = [n for n in walk_local(f) if isinstance(n, ast.Assign) and isinstance(n.targets[0], ast.Name) and n.targets[0].id == "lookup"]
-    if loop is None or not lk:
-        res.err("C02.R6", "read-out loop / lookup table not found")
-        return
-    try:
-        keysA = [("1", 0), ("1", 1), ("4", 0), ("36", 0)]
-        nameA = m.fams.containers[V]["infos"][0]["name"]
-        nameN = m.fams.containers[N]["infos"][0]["name"]
-        compA, compN = m.fams.containers[V]["comp"], m.fams.containers[N]["comp"]
-        ta, tn = ast.unparse(compA.generators[0].target), ast.unparse(compN.generators[0].target)
-        VA = {k: Evaluator({ta: k}).ev(nameA) for k in keysA}
-        VN = {k: Evaluator({tn: k}).ev(nameN) for k in (M1, M2)}
-        lookup = Evaluator({V: VA, N: VN, "model": Obj(varName=lambda v: v)}).ev(lk[0].value)
-        ys = [("optimal", 1.0, (VA["1", 0], VA["4", 0], VN[M1], "OR_x", "XOR_x")),
-              ("optimal", 1.0, (VA["4", 0], VA["1", 0], VN[M1], "XOR_x")),
-              ("optimal", 1.25, (VA["1", 0], VA["1", 1], "NOVEL")),
-              ("optimal", 1.25, (VA["1", 0], VA["1", 1], VN[M1], VN[M2]))]
-        made = []
-        env = {"lookup": lookup, "gene": "G", "cn_solution": "CN", "coverage": Obj(profile=Obj(gap=0.1)),
-               "model": Obj(solutions=lambda g=None: ys), "debug_info": {"sol": []}}
-        funcs = {"sorted_tuple": lambda it: tuple(sorted(it)),
-                 "SolvedAllele": lambda gene, major=None: ("SA", major),
-                 "MajorSolution": lambda score=None, solution=None, cn_solution=None, added=None: made.append(
-                     Obj(score=score, solution=solution, cn_solution=cn_solution, added=added, _solution_nice=lambda: "")) or made[-1],
-                 "collections.Counter": collections.Counter}
-        ev = Evaluator(env, funcs=funcs)
-        ev.locals["result"] = {}
-        kind, val = ev.run([loop])
-        result = ev.locals["result"]
-    except (Unfoldable, Raised, KeyError) as e:
-        res.err("C02.R6", f"read-out loop outside folding language: {e}")
-        return
-    got = [(k, v.score, dict(v.solution), v.added, v.cn_solution) for k, v in result.items()]
-    want_keys = [(("1", "4"), (M1,)), (("1", "1"), ()), (("1", "1"), (M1, M2))]
-    ok = [g[0] for g in got] == want_keys and [g[1] for g in got] == [1.0, 1.25, 1.25] \
-        and got[0][2] == {("SA", "1"): 1, ("SA", "4"): 1} and got[1][2] == {("SA", "1"): 2} \
-        and got[2][3] == [M1, M2] and all(g[4] == "CN" for g in got)
-    res.ob("C02.R6", f, loop, ok,
-           expected="solutions keyed by (sorted alleles, sorted novel variants) read back through the A_/N_ names; first occurrence kept; score = objective; added = novel variants",
-           found=str([(g[0], g[1]) for g in got])[:200], clause="every admissible combination within the gap is reported exactly once", key="identity")
-
-
 def r7(repo, res):
+    from sa.fold import Lifted
+
     f = repo.func("major::_filter_alleles")
     res.analysed(f)
     gene, alleles, structure = sample()
     alleles["99"] = Obj(cn_config="68", func_muts=set(), minors={}, name="")
     gene.get_rsid = lambda m: "rs"
-    cov = collections.defaultdict(int, {M1: 4, M2: 0, M3: 2, INS: 1})
+    structure.position_cn = lambda pos: 2
+    support = collections.defaultdict(int, {M1: 4, M2: 0, M3: 2, INS: 1})
+    passes = []
+
+    class Cov:
+        _fold_ok = True
+        profile = Obj(debug_probe="", cn_max=20)
+
+        def __init__(self, stage=0):
+            self.stage = stage
+
+        def filtered(self, fn):
+            passes.append(fn)
+            return Cov(self.stage + 1)
+
+        def __getitem__(self, m):
+            return support[Mut(*m)] if self.stage == 2 else 99   # only the twice-filtered evidence shows the unsupported variant
+
+        def dump(self, *a):
+            return None
+
     try:
-        loc = fold_defs(f, {"alleles"}, {"gene": gene, "cn_solution": structure, "cov": cov, "log.trace": None},
-                        funcs={"copy.deepcopy": copy.deepcopy, "natsorted": sorted})
+        out = Lifted(f, funcs={"copy.deepcopy": copy.deepcopy, "natsorted": lambda it, key=None: sorted(it, key=key)},
+                     env={"Coverage": Obj(quality_filter="QUALITY")})(gene, Cov(), structure)
     except (Unfoldable, Raised) as e:
-        res.err("C02.R7", f"_filter_alleles tail outside folding language: {e}")
+        res.err("C02.R7", f"_filter_alleles outside folding language: {e}")
         return
-    got = set(loc.get("alleles", {}))
+    got = set(out[0]) if isinstance(out, tuple) and len(out) == 2 else None
     want = {"1", "2", "15", "10"}  # "4" and "36" need M2 (unsupported); "99" has a configuration outside the structure
-    res.ob("C02.R7", f, f, got == want and set(gene.alleles) == set(alleles),
-           expected="an allele is a candidate iff its configuration is in the structure and every core variant has filtered support",
-           found=f"kept {sorted(got)} (expected {sorted(want)}); catalogue untouched: {set(gene.alleles) == set(alleles)}",
+    twice = isinstance(out, tuple) and len(out) == 2 and getattr(out[1], "stage", None) == 2 and passes[:1] == ["QUALITY"]
+    res.ob("C02.R7", f, f, got == want and set(gene.alleles) == set(alleles) and twice,
+           expected="an allele is a candidate iff its configuration is in the structure and every core variant has support in the quality- and threshold-filtered evidence, which is what is returned",
+           found=f"kept {sorted(got) if got is not None else out} (expected {sorted(want)}); catalogue untouched: {set(gene.alleles) == set(alleles)}; evidence filtered {getattr(out[1], 'stage', None) if isinstance(out, tuple) else None}x",
            clause="candidate selection", key="candidate-filter")
     # the support test reads the twice-filtered coverage: C15.R1 decides that
     g = repo.func("major::estimate_major")
@@ -463,130 +126,214 @@ def r7(repo, res):
 VAL_SEED = 0
 
 
-def r8(repo, res, m, N):
-    """Optional families may be absent, but must not be stronger than documented: the one-novel-per-site rule exempts
-    insertions (an insertion and a substitution at one site can both be novel) and never spans two sites."""
-    f = m.func
-    n = 0
-    for s in m.sites:
-        if s.lin is None or s.lin.var_terms() or s.sense == "==":
-            continue
-        sums = s.lin.sum_terms()
-        if len(sums) != 1 or s.lin.const_value({}) is None:
-            continue
-        k, t = sums[0]
-        body = t.body
-        if not (len(body.terms) == 1 and body.terms[0][1].kind == "var" and body.terms[0][1].fam == N and float(k.num) > 0):
-            continue
-        if len(t.binders) != 1 or not any("pos" in ast.unparse(x) for x, _ in t.filters):
-            continue
-        n += 1
-        bound = -s.lin.const_value({}) / float(k.num)
-        cands = [Mut(100, "A>G"), Mut(100, "A>T"), Mut(100, "insT"), Mut(200, "C>T")]
-        inc = []
+def major_instances():
+    """Sample instances of the major stage: fixed ones and seeded random ones (planted combination, multiplicative noise)."""
+    import random
+
+    from checks._majormodel import Instance, Mut as MM
+    from sa.report import seed as _seed, thorough
+
+    rnd = random.Random(_seed() + 40)
+    A1, A2, A3, AI, A4, AD = MM(100, "A>G"), MM(200, "C>T"), MM(300, "G>A"), MM(100, "insT"), MM(100, "A>T"), MM(250, "delAC")
+    pool = {"1": ("1", []), "2": ("1", [A1]), "4": ("1", [A1, A2]), "15": ("1", [AI]), "10": ("1", [A3]), "17": ("1", [A4, A3]),
+            "9": ("1", [AD]), "36": ("36", [A2]), "57": ("36", [A2, A3]), "13": ("13", [A1])}
+    out = [
+        Instance({k: pool[k] for k in ("1", "2", "4", "15", "10", "36")}, {"1": 2, "36": 1},
+                 {A1: 11, A2: 19, A3: 2, AI: 4, MM(100, "_"): 18, MM(200, "_"): 12, MM(300, "_"): 27}, no_cov={("36", 300)},
+                 single={AI: 4.0}),   # the insertion has its own (indel-aware) single-copy depth
+        # two unexplained substitutions at one site (the one-novel-per-site rule bites) and an unexplained insertion there
+        Instance({k: pool[k] for k in ("1", "10")}, {"1": 2}, {A1: 9, A4: 8, AI: 5, A3: 10, MM(100, "_"): 3, MM(300, "_"): 10}, present=[A1, A4, AI]),
+        # a position without single-copy depth; a non-default novelty penalty
+        Instance({k: pool[k] for k in ("1", "2", "9")}, {"1": 3}, {A1: 20, AD: 7, MM(100, "_"): 10, MM(250, "_"): 21}, single={250: 0.0}, major_novel=2.5),
+        # one copy of one configuration, nothing observed
+        Instance({"1": pool["1"]}, {"1": 1}, {}),
+    ]
+
+    def random_instance():
+        names = ["1"] + rnd.sample([k for k in pool if k != "1"], rnd.randint(1, 5))
+        cfgs = sorted({pool[k][0] for k in names})
+        structure = {c: rnd.randint(1, 2 if len(cfgs) > 1 else 3) for c in cfgs}
+        planted = [rnd.choice([k for k in names if pool[k][0] == c]) for c, n_ in structure.items() for _ in range(n_)]
+        no_cov = {(k, 300) for k in names if pool[k][0] == "36"} if rnd.random() < 0.5 else set()
+        vars_ = sorted({m for k in names for m in pool[k][1]})
+        reads = {}
+        for m in vars_:
+            c = sum(1 for k in planted if m in pool[k][1])
+            reads[m] = max(1, int(round(10 * c * rnd.uniform(0.6, 1.4)))) if c or rnd.random() < 0.8 else rnd.randint(1, 4)
+        extra = [m for m in (A4, AI) if m not in vars_ and rnd.random() < 0.3]
+        for m in extra:
+            reads[m] = rnd.randint(2, 9)
+        for p_ in sorted({m.pos for m in list(reads)}):
+            c = sum(1 for k in planted if (k, p_) not in no_cov and not any(m.pos == p_ and not m.op.startswith("ins") for m in pool[k][1]))
+            reads[MM(p_, "_")] = int(round(10 * c * rnd.uniform(0.7, 1.3)))
+        return Instance({k: pool[k] for k in names}, structure, reads, no_cov=no_cov, present=extra,
+                        major_novel=rnd.choice([21.0, 21.0, 3.0]))
+
+    for _ in range(24 if thorough() else 4):
+        out.append(random_instance())
+    return out
+
+
+def r9(repo, res):
+    """solve_major_model folded whole against the recording library. (R9) with an unbounded gap the routine reports every
+    admissible combination with its score: compared with the independent reading of the statement. (R10) with gap 0 / 0.1 /
+    0.5: the report is exactly the admissible combinations within the gap, best first, each once."""
+    from checks._majormodel import fold_solve_major, reference
+    from sa.fold import module_consts
+    from sa.lpmodel import wrapper_model
+
+    f = repo.func("major::solve_major_model")
+    res.analysed(f)
+    prec = module_consts(repo.mod("lpinterface")).get("SOLVER_PRECISON", 1e-5)
+    wrapper = wrapper_model(repo)
+    bad = {}
+    n = combos = 0
+
+    def key(row):
+        return (tuple(sorted(a for a, c in row[1].items() for _ in range(c))), row[2])
+
+    for inst in major_instances():
+        ref = reference(inst)
+        combos += len(ref)
         try:
-            for c_ in cands:
-                ev = Evaluator({N: {x: x for x in cands}, "pos": 100})
-                tgt, it = t.binders[0]
-                for item in list(ev.ev(it)):
-                    ev._assign(tgt, item)
-                    key = ev.ev(body.terms[0][1].keys[0])
-                    if key == c_ and all(bool(ev.ev(flt)) == pol for flt, pol in t.filters):
-                        inc.append(c_)
-        except (Unfoldable, Raised) as e:
-            res.note(f"C02.R8: one-novel-per-site family not in the folding language ({e}); not judged")
+            kind, rows = fold_solve_major(repo, inst, 1e9, wrapper)
+        except Unfoldable as e:
+            res.err("C02.R9", f"solve_major_model outside the folding language: {e}")
+            return
+        n += 1
+        tag = inst.describe()
+        if kind == "raise":
+            bad.setdefault("runs", f"{tag}: raises {rows}")
             continue
-        ok = set(inc) <= {Mut(100, "A>G"), Mut(100, "A>T")} and bound >= 1
-        res.ob("C02.R8", f, s.call, ok,
-               expected="at most one novel *non-insertion* variant per site (insertions and other sites are not part of the sum)",
-               found=f"sum ranges over {sorted(map(str, inc))} <= {bound:g}",
-               clause="every admissible combination within the optimality gap is reported (an over-tight optional rule makes admissible combinations infeasible)",
-               key="one-novel-per-site")
-    res.count("C02.R8:one-novel-per-site sites", n)
+        got = {}
+        for row in rows:
+            if key(row) in got:
+                bad.setdefault("repeat", f"{tag}: combination {key(row)} is reported twice")
+            got[key(row)] = row[0]
+            if not row[3]:
+                bad.setdefault("chain", f"{tag}: a reported combination does not carry the gene structure it was computed for")
+        must = {k_ for k_, (sc, one) in ref.items() if one}          # admissible under every reading
+        may = set(ref)                                              # admissible if the one-novel-per-site rule is not applied
+        extra = sorted(set(got) - may)
+        missing = sorted(must - set(got))
+        if extra:
+            k_ = extra[0]
+            cnt = collections.Counter(k_[0])
+            why = "its alleles do not match the structure's configurations" if {c: sum(v for a, v in cnt.items() if inst.alleles.get(a, ("?",))[0] == c)
+                                                                                for c in inst.structure} != dict(inst.structure) else \
+                  "an observed core variant is carried and flagged novel, or neither"
+            bad.setdefault("admissible", f"{tag}: reports alleles {k_[0]} with novel {[str(m) for m in k_[1]]}: {why}")
+        if missing:
+            k_ = missing[0]
+            bad.setdefault("complete", f"{tag}: the admissible combination {k_[0]} with novel {[str(m) for m in k_[1]]} (fit error {ref[k_][0]:.4f}) cannot be expressed / is never reported")
+        diff = [(k_, got[k_], ref[k_][0]) for k_ in got if k_ in ref and abs(got[k_] - ref[k_][0]) > 1e-6]
+        if diff:
+            k_, a_, b_ = diff[0]
+            bad.setdefault("score", f"{tag}: combination {k_[0]} with novel {[str(m) for m in k_[1]]} is scored {a_:.6f}; its fit error is {b_:.6f}")
+        # the report at the documented gaps
+        for gap in (0.0, 0.1, 0.5):
+            try:
+                kind, rows = fold_solve_major(repo, inst, gap, wrapper)
+            except Unfoldable as e:
+                res.err("C02.R10", f"solve_major_model outside the folding language: {e}")
+                return
+            if kind == "raise":
+                bad.setdefault("runs", f"{tag}, gap {gap}: raises {rows}")
+                continue
+            rep = [(key(r_), r_[0]) for r_ in rows]
+            allowed = {k_: sc for k_, (sc, one) in ref.items() if k_ in got}   # what this model can express (decided above)
+            if not allowed:
+                if rep:
+                    bad.setdefault("report", f"{tag}, gap {gap}: reports {rep} although no combination is admissible")
+                continue
+            best = min(allowed.values())
+            ub = (1 + gap) * best
+            want = {k_ for k_, sc in allowed.items() if sc <= ub + prec}
+            sure = {k_ for k_, sc in allowed.items() if sc <= ub - prec}
+            keys = [k_ for k_, _ in rep]
+            if len(set(keys)) != len(keys):
+                bad.setdefault("report", f"{tag}, gap {gap}: a combination is reported twice: {keys}")
+            if not (sure <= set(keys) <= want):
+                bad.setdefault("report", f"{tag}, gap {gap}: reports {sorted(set(keys), key=str)}; the combinations within (1 + gap) x {best:.4f} are {sorted(want, key=str)}")
+            if rep and abs(rep[0][1] - best) > 1e-6:
+                bad.setdefault("report", f"{tag}, gap {gap}: the first reported combination scores {rep[0][1]:.6f}, the best admissible one {best:.6f}")
+            if any(rep[i][1] > rep[i + 1][1] + 1e-9 for i in range(len(rep) - 1)):
+                bad.setdefault("report", f"{tag}, gap {gap}: not best first: {[round(x[1], 4) for x in rep]}")
+    res.count("C02.R9:instances folded", n)
+    res.count("C02.R9:admissible combinations compared", combos)
+    clauses = {
+        "runs": ("C02.R9", "the model is built and solved on every sample instance", ""),
+        "admissible": ("C02.R9", "every combination the model admits gives each configuration exactly its copies and accounts for every observed core variant exactly once",
+                       "gives each structural configuration exactly as many alleles as the structure has copies of it and accounts for every observed core variant exactly once"),
+        "complete": ("C02.R9", "every admissible combination can be expressed (one novel substitution per site at most is the only tolerated extra restriction)",
+                     "every admissible combination within the optimality gap is reported"),
+        "score": ("C02.R9", "score = sum |observed - called copies| over core variants and reference alleles at their sites + novelty penalties",
+                  "the reported score equals the fit error of that combination"),
+        "repeat": ("C02.R9", "no combination is reported twice", "reported exactly once"),
+        "chain": ("C02.R9", "a reported combination carries the gene structure it was computed for", ""),
+        "report": ("C02.R10", "for gap 0 / 0.1 / 0.5 the report is exactly the admissible combinations within (1 + gap) x best, best first, each once",
+                   "no admissible combination scores lower, and every admissible combination within the optimality gap is reported exactly once"),
+    }
+    for key_, (rule, exp, clause) in clauses.items():
+        res.ob(rule, f, f, key_ not in bad, expected=exp, found=f"{n} instances, {combos} admissible combinations agree" if key_ not in bad else bad[key_],
+               clause=clause, key=f"model:{key_}")
 
 
 def run(repo, res):
-    global VAL_SEED
-    from sa.report import seed as _seed, thorough
-
-    rounds = [0] if not thorough() else [0] + [1 + (_seed() + j) % 97 for j in range(4)]
-    for sd in rounds:
-        VAL_SEED = sd
-        _run(repo, res)
-    res.count("C02:valuations evaluated per template", len(rounds))
-    VAL_SEED = 0
-
-
-def _run(repo, res):
-    f = repo.func("major::solve_major_model")
-    res.analysed(f)
-    m = Model(f, ["constraints"])
-    res.floor("C02", "addConstr sites", len(m.sites), 8)
-    res.count("C02:constraint sites", len(m.sites))
-    V = r12(repo, res, m)
-    if V is None:
-        return
-    N, Efam = r3(repo, res, m, V)
-    if N is None:
-        return
-    r3b(repo, res, m)
-    r4(repo, res, m, V, N)
-    r5(repo, res, m, V, N, Efam)
-    r6(repo, res, m, V, N)
-    r8(repo, res, m, N)
+    r9(repo, res)
     r7(repo, res)
 
 
 MUTANTS = [
-    dict(name="R1 CSAT side dropped", module="major", expect="C02.R1",
+    dict(name="R1 CSAT side dropped", module="major", expect=["C02.R9", "C02.R10"],
          old='        model.addConstr(expr >= cnt, name=f"CSAT_{cnf}")\n', new=""),
-    dict(name="R1 CSAT counts copies of any configuration", module="major", expect="C02.R1",
+    dict(name="R1 CSAT counts copies of any configuration", module="major", expect=["C02.R9", "C02.R10"],
          old="        expr = sum(VA[a] for a in VA if alleles[a].cn_config == cnf)", new="        expr = sum(VA[a] for a in VA)"),
-    dict(name="R2 one copy too few", module="major", expect="C02.R2",
+    dict(name="R2 one copy too few", module="major", expect=["C02.R9", "C02.R10"],
          old="        for i in range(1, max_cn):\n            alleles[an, i] = alleles[an, 0]", new="        for i in range(1, max_cn - 1):\n            alleles[an, i] = alleles[an, 0]"),
-    dict(name="R3 fit side dropped", module="major", expect="C02.R3",
+    dict(name="R3 fit side dropped", module="major", expect=["C02.R9", "C02.R10"],
          old='        model.addConstr(expr + VERR[m] >= cov, name=f"CFUNC_{m.pos}_{m.op}")\n', new=""),
-    dict(name="R3 novel variant not in its equation", module="major", expect="C02.R3",
+    dict(name="R3 novel variant not in its equation", module="major", expect=["C02.R9", "C02.R10"],
          old="    for m, v in VNEW.items():\n        constraints[m] += v\n", new=""),
-    dict(name="R3 has_coverage test removed from reference equation", module="major", expect="C02.R3",
+    dict(name="R3 has_coverage test removed from reference equation", module="major", expect=["C02.R9", "C02.R10"],
          old="            if not gene.has_coverage(a[0], pos):\n                continue\n            # An insertion", new="            # An insertion"),
-    dict(name="R3 insertion exemption removed", module="major", expect="C02.R3",
+    dict(name="R3 insertion exemption removed", module="major", expect=["C02.R9", "C02.R10"],
          old='            if any(ma[0] == pos and ma[1][:3] != "ins" for ma in alleles[a].func_muts):',
          new="            if any(ma[0] == pos for ma in alleles[a].func_muts):"),
-    dict(name="R3 error variable non-negative", module="major", expect="C02.R3",
+    dict(name="R3 error variable non-negative", module="major", expect=["C02.R9", "C02.R10"],
          old='        m: model.addVar(lb=-model.INF, ub=model.INF, name=f"E_{m.pos}_{m.op}")', new='        m: model.addVar(lb=0, ub=model.INF, name=f"E_{m.pos}_{m.op}")'),
-    dict(name="R3 zero guard dropped", module="major", expect="C02.R3",
+    dict(name="R3 zero guard dropped", module="major", expect=["C02.R9", "C02.R10"],
          old="        if coverage.single_copy(m.pos, cn_solution) == 0:\n            cov = 0.0\n        else:\n            cov = coverage[m] / coverage.single_copy(m, cn_solution)",
          new="        cov = coverage[m] / max(1e-9, coverage.single_copy(m, cn_solution))"),
-    dict(name="R4 VXOR >= 1 dropped", module="major", expect="C02.R4",
+    dict(name="R4 VXOR >= 1 dropped", module="major", expect=["C02.R9", "C02.R10"],
          old='        model.addConstr(VXOR >= 1, name="CXOR")\n', new=""),
-    dict(name="R4 XOR upper bound dropped (both allowed)", module="major", expect="C02.R4",
+    dict(name="R4 XOR upper bound dropped (both allowed)", module="major", expect=["C02.R9", "C02.R10"],
          old='        model.addConstr(VXOR <= 2 - VNEW[m] - VOR, name="CXOR")\n', new=""),
-    dict(name="R4 XOR other upper bound dropped (neither allowed)", module="major", expect="C02.R4",
+    dict(name="R4 XOR other upper bound dropped (neither allowed)", module="major", expect=["C02.R9", "C02.R10"],
          old='        model.addConstr(VXOR <= VNEW[m] + VOR, name="CXOR")\n', new=""),
-    dict(name="R4 OR lower bounds dropped", module="major", expect="C02.R4",
+    dict(name="R4 OR lower bounds dropped", module="major", expect=["C02.R9", "C02.R10"],
          old='        for a in m_all:\n            model.addConstr(VOR >= VA[a], name="COR")\n', new=""),
-    dict(name="R4 OR upper bound dropped", module="major", expect="C02.R4",
+    dict(name="R4 OR upper bound dropped", module="major", expect=["C02.R9", "C02.R10"],
          old='        model.addConstr(VOR <= model.quicksum(VA[a] for a in m_all), name="COR")\n', new=""),
-    dict(name="R5 0.1 term dropped", module="major", expect="C02.R5",
+    dict(name="R5 0.1 term dropped", module="major", expect=["C02.R9", "C02.R10"],
          old="    objective += 0.1 * model.quicksum(VNEW[m] for m in VNEW)\n", new=""),
-    dict(name="R5 novelty penalty dropped", module="major", expect="C02.R5",
+    dict(name="R5 novelty penalty dropped", module="major", expect=["C02.R9", "C02.R10"],
          old="    objective += coverage.profile.major_novel * z\n", new=""),
-    dict(name="R5 z not tied to the flags", module="major", expect="C02.R5",
+    dict(name="R5 z not tied to the flags", module="major", expect=["C02.R9", "C02.R10"],
          old='        model.addConstr(z >= VNEW[m], name=f"NOVEL_UB_{VNEW[m]}")', new="        pass"),
-    dict(name="R6 gap not passed", module="major", expect="C02.R6",
+    dict(name="R6 gap not passed", module="major", expect=["C02.R9", "C02.R10"],
          old="    for status, opt, sol in model.solutions(coverage.profile.gap):", new="    for status, opt, sol in model.solutions():"),
-    dict(name="R6 identity by alleles only", module="major", expect="C02.R6",
+    dict(name="benign: identity by alleles only (the novel set is a function of the called alleles)", module="major", kind="benign",
          old="        if (solved_alleles, novel_muts) not in result:", new="        if (solved_alleles, ()) not in result and not any(k[0] == solved_alleles for k in result):"),
-    dict(name="R6 novel variants not reported", module="major", expect="C02.R6",
+    dict(name="R6 novel variants not reported", module="major", expect=["C02.R9", "C02.R10"],
          old="                added=list(novel_muts),", new="                added=[],"),
     dict(name="R7 unsupported allele kept", module="major", expect="C02.R7",
          old="        elif any(cov[m] <= 0 for m in a.func_muts):", new="        elif all(cov[m] <= 0 for m in a.func_muts) and a.func_muts:"),
     dict(name="R7 missing configuration ignored", module="major", expect="C02.R7",
          old="    if set(cn_solution.solution) - set(a.cn_config for a in alleles.values()):", new="    if not alleles:"),
-    dict(name="R3 observed copies divided by the pile-up depth (seeded C02_b1 shape)", module="major", expect="C02.R3",
+    dict(name="R3 observed copies divided by the pile-up depth (seeded C02_b1 shape)", module="major", expect=["C02.R9", "C02.R10"],
          old="            cov = coverage[m] / coverage.single_copy(m, cn_solution)", new="            cov = coverage[m] / coverage.single_copy(m.pos, cn_solution)"),
-    dict(name="R8 one-novel-per-site also counts insertions (seeded C02_b4 shape)", module="major", expect="C02.R8",
+    dict(name="R8 one-novel-per-site also counts insertions (seeded C02_b4 shape)", module="major", expect=["C02.R9", "C02.R10"],
          old='            v for m, v in VNEW.items() if m[0] == pos and m[1][:3] != "ins"', new="            v for m, v in VNEW.items() if m[0] == pos"),
     # benign
     dict(name="benign: CSAT as ==", module="major", kind="benign",
